@@ -754,6 +754,159 @@ func castTypes(f *ast.File) []string {
 	return res
 }
 
+// ---------------------------------------------------------------- panic containment facts (C03)
+
+type fnFact struct {
+	name     string
+	recovers bool
+	unprot   []string // package functions called outside the function's deferred recover (all calls if it has none; the handler's own calls included)
+	stages   []string // "error in <stage>" prefixes of the fmt.Errorf calls in the body
+	bareErr  int      // return statements handing back a bare `err` (unwrapped)
+}
+
+func recvName(fd *ast.FuncDecl) string {
+	if fd.Recv == nil || len(fd.Recv.List) == 0 {
+		return ""
+	}
+	t := fd.Recv.List[0].Type
+	if st, ok := t.(*ast.StarExpr); ok {
+		t = st.X
+	}
+	if ix, ok := t.(*ast.IndexExpr); ok {
+		t = ix.X
+	}
+	if id, ok := t.(*ast.Ident); ok {
+		return id.Name
+	}
+	return "?"
+}
+
+func isRecoverDefer(s ast.Stmt) (*ast.FuncLit, bool) {
+	d, ok := s.(*ast.DeferStmt)
+	if !ok {
+		return nil, false
+	}
+	fl, ok := d.Call.Fun.(*ast.FuncLit)
+	if !ok {
+		return nil, false
+	}
+	found := false
+	ast.Inspect(fl.Body, func(n ast.Node) bool {
+		if c, ok := n.(*ast.CallExpr); ok {
+			if id, ok := c.Fun.(*ast.Ident); ok && id.Name == "recover" {
+				found = true
+			}
+		}
+		return true
+	})
+	return fl, found
+}
+
+func extractCoverage(repo string) []fnFact {
+	ents, _ := os.ReadDir(repo)
+	var files []*ast.File
+	for _, e := range ents {
+		n := e.Name()
+		if !strings.HasSuffix(n, ".go") || strings.HasSuffix(n, "_test.go") || strings.HasPrefix(n, "verif_") {
+			continue
+		}
+		files = append(files, parseFile(repo, n))
+	}
+	funcs := map[string]bool{}
+	methods := map[string][]string{} // method name -> full names
+	var decls []*ast.FuncDecl
+	for _, f := range files {
+		for _, d := range f.Decls {
+			fd, ok := d.(*ast.FuncDecl)
+			if !ok || fd.Body == nil {
+				continue
+			}
+			decls = append(decls, fd)
+			if r := recvName(fd); r != "" {
+				methods[fd.Name.Name] = append(methods[fd.Name.Name], r+"."+fd.Name.Name)
+			} else {
+				funcs[fd.Name.Name] = true
+			}
+		}
+	}
+	collect := func(nodes []ast.Node) []string {
+		set := map[string]bool{}
+		for _, nd := range nodes {
+			ast.Inspect(nd, func(n ast.Node) bool {
+				c, ok := n.(*ast.CallExpr)
+				if !ok {
+					return true
+				}
+				switch fn := c.Fun.(type) {
+				case *ast.Ident:
+					if funcs[fn.Name] {
+						set[fn.Name] = true
+					}
+				case *ast.IndexExpr: // generic instantiation f[T](...)
+					if id, ok := fn.X.(*ast.Ident); ok && funcs[id.Name] {
+						set[id.Name] = true
+					}
+				case *ast.SelectorExpr:
+					if len(methods[fn.Sel.Name]) > 0 { // a method of the package, receiver unresolved
+						set["."+fn.Sel.Name] = true
+					}
+				}
+				return true
+			})
+		}
+		var out []string
+		for k := range set {
+			out = append(out, k)
+		}
+		sort.Strings(out)
+		return out
+	}
+	var facts []fnFact
+	for _, fd := range decls {
+		name := fd.Name.Name
+		if r := recvName(fd); r != "" {
+			name = r + "." + name
+		}
+		fact := fnFact{name: name}
+		var nodes []ast.Node
+		for _, st := range fd.Body.List {
+			if fl, ok := isRecoverDefer(st); ok {
+				fact.recovers = true
+				nodes = append(nodes, fl.Body) // the handler itself runs unprotected
+				break
+			}
+			nodes = append(nodes, st)
+		}
+		fact.unprot = collect(nodes)
+		ast.Inspect(fd.Body, func(n ast.Node) bool {
+			switch x := n.(type) {
+			case *ast.CallExpr:
+				if se, ok := x.Fun.(*ast.SelectorExpr); ok && se.Sel.Name == "Errorf" && len(x.Args) > 0 {
+					if lit, ok := strLit(x.Args[0]); ok && strings.HasPrefix(lit, "error in ") {
+						st := strings.TrimPrefix(lit, "error in ")
+						if i := strings.Index(st, ":"); i >= 0 {
+							st = st[:i]
+						}
+						fact.stages = append(fact.stages, st)
+					}
+				}
+			case *ast.ReturnStmt:
+				if len(x.Results) > 0 {
+					if id, ok := x.Results[len(x.Results)-1].(*ast.Ident); ok && id.Name == "err" {
+						fact.bareErr++
+					}
+				}
+			case *ast.FuncLit:
+				return false
+			}
+			return true
+		})
+		facts = append(facts, fact)
+	}
+	sort.Slice(facts, func(i, j int) bool { return facts[i].name < facts[j].name })
+	return facts
+}
+
 func main() {
 	repo := "/repo"
 	out := ""
@@ -887,6 +1040,26 @@ func main() {
 		bad(imF, "intMapHash: not identity")
 	}
 	w("\n")
+
+	// panic containment facts
+	w("def funcs : List FnFact := [\n")
+	facts := extractCoverage(repo)
+	for i, f := range facts {
+		sep := ","
+		if i == len(facts)-1 {
+			sep = ""
+		}
+		var l []string
+		for _, c := range f.unprot {
+			l = append(l, q(c))
+		}
+		var st []string
+		for _, c := range f.stages {
+			st = append(st, q(c))
+		}
+		w("  { name := %s, recovers := %v, unprot := [%s], stages := [%s], bareErr := %d }%s\n", q(f.name), f.recovers, strings.Join(l, ", "), strings.Join(st, ", "), f.bareErr, sep)
+	}
+	w("]\n\n")
 
 	sort.Strings(unrec)
 	w("def unrecognised : List String := [")
